@@ -30,49 +30,14 @@ func checkC12(p *Prog, r *Report) {
 	outerKeyGuard(p, ls, r, "R1", tally, 1)
 	outerKeyGuard(p, ls, r, "R1", pend, 1)
 
-	r.Rule("R7", "bookkeeping of one write never touches another write of the same peer: a function that addresses the per-peer maps by message counter deletes only at the counter level; removing a peer's whole entry is left to functions that never address a single write (teardown)")
-	nDel := 0
-	for _, key := range []string{tally, pend} {
-		fname := key[strings.Index(key, ".")+1:]
-		for _, fn := range ls.fns {
-			if isWrapper(fn) {
-				continue
-			}
-			var outerDel []*ssa.Call
-			inner := 0
-			for _, a := range ls.accessesIn(key, fn) {
-				switch x := a.Ins.(type) {
-				case *ssa.Call:
-					if builtinName(&x.Call) == "delete" {
-						nDel++
-						pth := Path(x.Call.Args[0])
-						if strings.HasSuffix(pth, "."+fname) {
-							outerDel = append(outerDel, x)
-						} else if strings.Contains(pth, "."+fname+"[]") {
-							inner++
-						}
-					}
-				case *ssa.Lookup:
-					if strings.Contains(Path(x.X), "."+fname+"[]") {
-						inner++
-					}
-				case *ssa.MapUpdate:
-					if strings.Contains(Path(x.Map), "."+fname+"[]") {
-						inner++
-					}
-				}
-			}
-			for i, d := range outerDel {
-				r.Check("R7", fmt.Sprintf("field:%s|fn:%s|peer-delete#%d", key, FnName(originOf(fn)), i+1), inner == 0, p.InstrPos(d), fmt.Sprintf("the whole entry of the peer is deleted in a function that addresses single writes by counter %d times: the bookkeeping of the peer's other pending writes is wiped with it", inner))
-			}
-		}
-	}
-	r.Floor("R7", "deletions on the per-peer maps", nDel, 3)
+	perWriteBookkeepingRule(p, ls, r, "R7", tally, pend)
 	approvalCleanupRule(p, r, "R8")
 	r.Rule("R10", "the locks of the approval bookkeeping are acquired in one order everywhere: no cycle of the held->acquired relation (over all mutexes, along synchronous calls) passes through a lock of the local feature — a verdict racing the clean-up after a disconnect cannot deadlock and leave writes without outcome")
 	lockOrderOn(p, r, "R10", "FeatureLocal.", "locks of the local feature")
 	r.Rule("R9", "every approval callback registered takes part: AddWriteApprovalCallback stores its callback on every path that does not return an error (no registration is dropped silently)")
 	registrationRule(p, r, "R9", "AddWriteApprovalCallback", "FeatureLocal.writeApprovalCallbacks")
+	r.Rule("R11", "a registration is refused only because of the role of the feature: every error return of AddWriteApprovalCallback is reached under the failed role test and under nothing else — a refusal for any other reason (a de-duplication by code pointer treats distinct closures of one literal, or bound methods of two objects, as one callback) leaves a callback out of the unanimity count")
+	c12RefusalOnlyByRole(p, r, "R11")
 	r.Rule("R2", "whoever deletes a pending entry and then produces an outcome claims it: a comma-ok look-up of the entry and its deletion share one critical section, and every outcome effect is reached only if the look-up found the entry")
 	r.Rule("R3", "resolver paths: claimed ⇒ exactly one outcome (the write executor exactly once, or exactly one error result); not claimed or not yet unanimous ⇒ no outcome")
 	nResolvers := 0
@@ -611,4 +576,96 @@ func isCounterLookup(v ssa.Value) bool {
 		return false
 	}
 	return strings.HasSuffix(Path(lk.Index), ".RequestHeader.MsgCounter")
+}
+
+// perWriteBookkeepingRule (C12-R7, shared with C01): a function that addresses the per-peer approval maps by message
+// counter deletes only at the counter level.
+func perWriteBookkeepingRule(p *Prog, ls *Lockset, r *Report, rule, tally, pend string) {
+	r.Rule(rule, "bookkeeping of one write never touches another write of the same peer: a function that addresses the per-peer maps by message counter deletes only at the counter level; removing a peer's whole entry is left to functions that never address a single write (teardown)")
+	nDel := 0
+	for _, key := range []string{tally, pend} {
+		fname := key[strings.Index(key, ".")+1:]
+		for _, fn := range ls.fns {
+			if isWrapper(fn) {
+				continue
+			}
+			var outerDel []*ssa.Call
+			inner := 0
+			for _, a := range ls.accessesIn(key, fn) {
+				switch x := a.Ins.(type) {
+				case *ssa.Call:
+					if builtinName(&x.Call) == "delete" {
+						nDel++
+						pth := Path(x.Call.Args[0])
+						if strings.HasSuffix(pth, "."+fname) {
+							outerDel = append(outerDel, x)
+						} else if strings.Contains(pth, "."+fname+"[]") {
+							inner++
+						}
+					}
+				case *ssa.Lookup:
+					if strings.Contains(Path(x.X), "."+fname+"[]") {
+						inner++
+					}
+				case *ssa.MapUpdate:
+					if strings.Contains(Path(x.Map), "."+fname+"[]") {
+						inner++
+					}
+				}
+			}
+			for i, d := range outerDel {
+				r.Check(rule, fmt.Sprintf("field:%s|fn:%s|peer-delete#%d", key, FnName(originOf(fn)), i+1), inner == 0, p.InstrPos(d), fmt.Sprintf("the whole entry of the peer is deleted in a function that addresses single writes by counter %d times: the bookkeeping of the peer's other pending writes is wiped with it", inner))
+			}
+		}
+	}
+	r.Floor(rule, "deletions on the per-peer maps", nDel, 3)
+}
+
+// c12RefusalOnlyByRole: the error returns of AddWriteApprovalCallback are guarded by the role test only.
+func c12RefusalOnlyByRole(p *Prog, r *Report, rule string) {
+	fli := p.LookupIface("api", "FeatureLocalInterface")
+	if fli == nil {
+		r.Undecided(rule, "anchor:api.FeatureLocalInterface", "", "interface not found")
+		return
+	}
+	n := 0
+	seen := map[*ssa.Function]bool{}
+	for _, fn := range p.ImplsOf(fli, "AddWriteApprovalCallback") {
+		impl := fn
+		if isWrapper(fn) {
+			forEachCall(fn, func(site ssa.CallInstruction) {
+				if c := site.Common().StaticCallee(); c != nil && c.Name() == fn.Name() {
+					impl = c
+				}
+			})
+		}
+		if seen[impl] || impl.Blocks == nil {
+			continue
+		}
+		seen[impl] = true
+		nres := impl.Signature.Results().Len()
+		if nres == 0 {
+			continue
+		}
+		for _, as := range resultAssignments(impl, nres-1) {
+			if c, isC := as.Val.(*ssa.Const); isC && c.IsNil() {
+				continue
+			}
+			n++
+			byRole, other := false, []string{}
+			for _, g := range Guards(as.Block) {
+				pth := Path(g.Cond)
+				if bo, isB := g.Cond.(*ssa.BinOp); isB {
+					lp := Path(bo.X) + " " + Path(bo.Y)
+					if strings.Contains(lp, "Role()") || strings.Contains(lp, "."+FN("Feature.role")) {
+						byRole = true
+						continue
+					}
+				}
+				other = append(other, pth)
+			}
+			r.Check(rule, fmt.Sprintf("%s|refusal#%d", FnName(impl), n), byRole && len(other) == 0, p.Pos(as.Pos), fmt.Sprintf("the error return is reached under the role test: %v; under other conditions: %v", byRole, other))
+		}
+	}
+	r.Floor(rule, "error returns of AddWriteApprovalCallback", n, 1)
 }
